@@ -62,7 +62,7 @@ impl SignedRegister {
     /// Verfies a SignedRegister
     pub fn verify(&self) -> Result<()> {
         let reg_size = self.ops.len();
-        if reg_size >= MAX_REG_NUM_ENTRIES as usize {
+        if reg_size > MAX_REG_NUM_ENTRIES as usize {
             return Err(Error::TooManyEntries(reg_size));
         }
 
